@@ -258,16 +258,55 @@ func moved(t *tape.Tape, r image.Rectangle) image.Rectangle {
 // metadata, or Go's zero values (a valid, if degenerate, viewBox 0,0,0,0 and
 // an all-transparent palette) — the relations a "same as last time" shortcut
 // or a zero-value slip would key on.
-func relateMetadata(t *tape.Tape, a, b []world.Op) {
+func relateMetadata(t *tape.Tape, a, b []world.Op) []world.Op {
 	if len(b) == 0 || b[0].K != world.KReset {
-		return
+		return b
+	}
+	if t.Chance(1, 8) {
+		// The later graphic's palette carries a colour the earlier graphic
+		// left in a register — a gradient descriptor if it wrote one — and its
+		// first path is filled straight from that palette entry, before any
+		// register write. A caller-supplied palette may hold such a value (the
+		// decoder would blank it, direct callers and WithPalette do not); on a
+		// fresh object it names registers nobody set.
+		var cands []world.Op
+		for i := range a {
+			if a[i].K == world.KSetCReg {
+				cands = append(cands, a[i])
+			}
+		}
+		if len(cands) > 0 {
+			// prefer the last descriptor written
+			pick := cands[t.Intn(len(cands))]
+			for i := len(cands) - 1; i >= 0; i-- {
+				if rgba, ok := cands[i].C.RGBA(); !ok && rgba.A == 0xff && t.Chance(3, 4) {
+					pick = cands[i]
+					break
+				}
+			}
+			rgba := pick.C.Resolve(&ivg.DefaultPalette, &ivg.DefaultPalette)
+			pal := ivg.DefaultPalette
+			if b[0].Pal != nil {
+				pal = *b[0].Pal
+			}
+			j := uint8(t.Intn(64))
+			pal[j] = rgba
+			b[0].Pal = &pal
+			head := []world.Op{b[0],
+				{K: world.KSetCSel, U: j},
+				{K: world.KStartPath, U: 0, F: [6]float32{world.LoCoord(t), world.LoCoord(t)}},
+				{K: world.KAbsLineTo, F: [6]float32{world.LoCoord(t), world.LoCoord(t)}},
+				{K: world.KAbsLineTo, F: [6]float32{world.LoCoord(t), world.LoCoord(t)}},
+				{K: world.KClosePathEndPath}}
+			return append(head, b[1:]...)
+		}
 	}
 	switch t.Pick(6, 2, 1, 2) {
 	case 1:
 		for i := len(a) - 1; i >= 0; i-- {
 			if a[i].K == world.KReset {
 				b[0].VB, b[0].Pal = a[i].VB, a[i].Pal
-				return
+				return b
 			}
 		}
 	case 2:
@@ -282,6 +321,7 @@ func relateMetadata(t *tape.Tape, a, b []world.Op) {
 			b[0].Pal = &pal
 		}
 	}
+	return b
 }
 
 // deliver feeds prog to the Renderer, either by direct calls or through the
@@ -558,7 +598,7 @@ func c17Run(ctx *Ctx, t *tape.Tape) *report.Violation {
 		hiBefore := t.Chance(1, 4)
 		last := rs[len(rs)-1]
 		b := genBFrom(t, last.a)
-		relateMetadata(t, last.a, b)
+		b = relateMetadata(t, last.a, b)
 		v := encReuse(ctx, t, last.a, b, last.cut, last.cause, func(e *encode.Encoder) {
 			e.HighResolutionCoordinates = hiBefore
 			for _, r := range rs[:len(rs)-1] {
@@ -580,7 +620,7 @@ func c17Run(ctx *Ctx, t *tape.Tape) *report.Violation {
 	case c17EncEnum:
 		a := genA(t)
 		b := genBFrom(t, a)
-		relateMetadata(t, a, b)
+		b = relateMetadata(t, a, b)
 		if len(a) > 80 && ctx.Tier != "thorough" {
 			a = a[:80]
 		}
@@ -648,7 +688,7 @@ func c17Run(ctx *Ctx, t *tape.Tape) *report.Violation {
 			causes = append(causes, []abortCause{causeStop, causeStop, causeDecodeErr, causeDecodeErr, causeComplete}[t.Intn(5)])
 		}
 		b := genBFrom(t, as[len(as)-1])
-		relateMetadata(t, as[len(as)-1], b)
+		b = relateMetadata(t, as[len(as)-1], b)
 		v := rendReuse(ctx, t, as, cuts, causes, b, rect, viaBytes, rect2)
 		if v == nil && st != nil && rounds > 1 {
 			st.Add("probe_multiple_abort_restart_rounds", 1)
